@@ -287,7 +287,7 @@ PROPS = {
         "closure": ['AutosarVerif.Properties.C15', 'AutosarVerif.Lemmas.LocksOrder'],
         "scenario": "conc",
         "scenario_args": [],
-        "rule": 'fixture: a model with 2 files, packages, elements and references; 24 operations (readers: serialize a/b, path, elements_dfs, check_references, lookups, identifiable_elements; writers: create_named, remove, set_item_name, move, set_character_data, set_reference_target, set_comment, set_attribute, create_file, remove_file, load_buffer, sort). Lock programs of every operation are recorded single-threaded (hook H2 record mode). Pairs (quick: 118 seeded pairs incl. every writer x writer on shared data; thorough: all 442 ordered pairs and 40 triples) run under the deterministic scheduler over all interleavings with <= 2 (thorough 3) preemptions plus random schedules; oracle C15: the scheduler never finds all threads blocked; oracle C16: return values and final canonical dump equal one of the serial orders, ParentElementLocked means no effect, invariants hold at the end; deadlocking pairs are re-run on two real threads in a child process with a watchdog. Non-trivial = distinct (pair, schedule).',
+        "rule": 'fixture: a model with 2 files, packages, elements and references; 25 operations (readers: serialize a/b, path, elements_dfs, check_references, lookups, identifiable_elements; writers: create_named, remove, set_item_name, move, set_character_data, set_reference_target, set_comment, set_attribute, create_file, remove_file, load_buffer, sort). Lock programs of every operation are recorded single-threaded (hook H2 record mode). Pairs (quick: 118 seeded pairs incl. every writer x writer on shared data; thorough: all 442 ordered pairs and 40 triples) run under the deterministic scheduler over all interleavings with <= 2 (thorough 3) preemptions plus random schedules; oracle C15: the scheduler never finds all threads blocked; oracle C16: return values and final canonical dump equal one of the serial orders, ParentElementLocked means no effect, invariants hold at the end; deadlocking pairs are re-run on two real threads in a child process with a watchdog. Non-trivial = distinct (pair, schedule).',
         "trusted_base": ["hook H2 (autosar-data/src/verif_lock.rs): lock shim with record mode and a deterministic cooperative scheduler; its lock model (readers/writer, waiting writer blocks new readers, timed try = immediate) is the same as Model/Locks.lean",
                          "harness/src/conc.rs: fixture, operation set, schedule enumeration, serial-order comparison, real-thread confirmation in child processes"],
         "assumptions": ["interleavings are explored at lock-acquisition granularity up to the stated preemption bound; OS scheduling, parking_lot internals and the 10 ms time-out are outside the model"],
@@ -300,7 +300,7 @@ PROPS = {
         "closure": ['AutosarVerif.Properties.C16', 'AutosarVerif.Lemmas.LocksOrder'],
         "scenario": "conc",
         "scenario_args": [],
-        "rule": 'fixture: a model with 2 files, packages, elements and references; 24 operations (readers: serialize a/b, path, elements_dfs, check_references, lookups, identifiable_elements; writers: create_named, remove, set_item_name, move, set_character_data, set_reference_target, set_comment, set_attribute, create_file, remove_file, load_buffer, sort). Lock programs of every operation are recorded single-threaded (hook H2 record mode). Pairs (quick: 118 seeded pairs incl. every writer x writer on shared data; thorough: all 442 ordered pairs and 40 triples) run under the deterministic scheduler over all interleavings with <= 2 (thorough 3) preemptions plus random schedules; oracle C15: the scheduler never finds all threads blocked; oracle C16: return values and final canonical dump equal one of the serial orders, ParentElementLocked means no effect, invariants hold at the end; deadlocking pairs are re-run on two real threads in a child process with a watchdog. Non-trivial = distinct (pair, schedule).',
+        "rule": 'fixture: a model with 2 files, packages, elements and references; 25 operations (readers: serialize a/b, path, elements_dfs, check_references, lookups, identifiable_elements; writers: create_named, remove, set_item_name, move, set_character_data, set_reference_target, set_comment, set_attribute, create_file, remove_file, load_buffer, sort). Lock programs of every operation are recorded single-threaded (hook H2 record mode). Pairs (quick: 118 seeded pairs incl. every writer x writer on shared data; thorough: all 442 ordered pairs and 40 triples) run under the deterministic scheduler over all interleavings with <= 2 (thorough 3) preemptions plus random schedules; oracle C15: the scheduler never finds all threads blocked; oracle C16: return values and final canonical dump equal one of the serial orders, ParentElementLocked means no effect, invariants hold at the end; deadlocking pairs are re-run on two real threads in a child process with a watchdog. Non-trivial = distinct (pair, schedule).',
         "trusted_base": ["hook H2 (autosar-data/src/verif_lock.rs): lock shim with record mode and a deterministic cooperative scheduler; its lock model (readers/writer, waiting writer blocks new readers, timed try = immediate) is the same as Model/Locks.lean",
                          "harness/src/conc.rs: fixture, operation set, schedule enumeration, serial-order comparison, real-thread confirmation in child processes"],
         "assumptions": ["interleavings are explored at lock-acquisition granularity up to the stated preemption bound; OS scheduling, parking_lot internals and the 10 ms time-out are outside the model"],
